@@ -61,7 +61,13 @@ def body_unique(rec, c):
                             and o["lifetime"] < s["lifetime"] and okind == kind and oe == e)
                 if same_job:
                     rec.cls("same-job-reissued-or-repicked")
-                if not same_job:
+                # A job that was in flight when its lifetime was killed and that the restart dropped (fewer steps left than
+                # recorded jobs) never delivered anything drawn from its stream; a later job with that ordinal gets the
+                # stream instead. No two consumed results share a stream, which is what the statement is about.
+                unconsumed = o["job"] in lost and o["lifetime"] < s["lifetime"]
+                if unconsumed and not same_job:
+                    rec.cls("stream-of-a-never-consumed-job-taken-over")
+                if not same_job and not unconsumed:
                     when = "concurrent-or-same-lifetime" if o["lifetime"] == s["lifetime"] else "across-restart"
                     rec.check(False, f"C07:two-jobs-same-stream:{when}",
                               f"{kind} stream of job {s['job']} (ens {s['ens']}, paths {s['paths']}, lifetime {s['lifetime']}, key {x[1]}) equals {okind} stream of job {o['job']} "
